@@ -179,6 +179,10 @@ static Register d5("c15.n2s3k7", "C15", "all of TA(2,{a:0,b:0,f:1,g:2},<=7 rules
 static Register d6("c15.n4agk4", "C15", "all of TA(4,{a:0,g:2},<=4 rules)", [](Env& e) { c15Body(e, "c15.n4agk4", 4, dom::SigmaAG(), 4); });
 static Register d7("c15.n4afhk3", "C15", "all members of TA(4,{a:0,f:1,h:3},<=3 rules) with >=1 leaf rule and >=1 final state (ternary rules with repeated children)", [](Env& e) { c15Body(e, "c15.n4afhk3", 4, dom::SigmaAFH(), 3, true); });
 static Register d8("c15.n3afhk3", "C15", "all of TA(3,{a:0,f:1,h:3},<=3 rules)", [](Env& e) { c15Body(e, "c15.n3afhk3", 3, dom::SigmaAFH(), 3); });
+static Register a9("c03.n4abfk5", "C03", "all of TA(4,{a:0,b:0,f:1},<=5 rules) (word-like: long chains)", [](Env& e) { c03Body(e, "c03.n4abfk5", 4, dom::SigmaABF(), 5); });
+static Register a10("c03.n5abfk4", "C03", "all of TA(5,{a:0,b:0,f:1},<=4 rules)", [](Env& e) { c03Body(e, "c03.n5abfk4", 5, dom::SigmaABF(), 4); });
+static Register d9("c15.n4abfk5", "C15", "all of TA(4,{a:0,b:0,f:1},<=5 rules) (word-like: long chains)", [](Env& e) { c15Body(e, "c15.n4abfk5", 4, dom::SigmaABF(), 5); });
+static Register d10("c15.n5abfk4", "C15", "all of TA(5,{a:0,b:0,f:1},<=4 rules)", [](Env& e) { c15Body(e, "c15.n5abfk4", 5, dom::SigmaABF(), 4); });
 static Register a7("c03.n3afhk3", "C03", "all of TA(3,{a:0,f:1,h:3},<=3 rules) (ternary rules with repeated children)", [](Env& e) { c03Body(e, "c03.n3afhk3", 3, dom::SigmaAFH(), 3); });
 static Register a8("c03.n4afhk3", "C03", "all members of TA(4,{a:0,f:1,h:3},<=3 rules) with >=1 leaf rule", [](Env& e) { c03Body(e, "c03.n4afhk3", 4, dom::SigmaAFH(), 3, true); });
 }  // namespace c03
